@@ -209,7 +209,9 @@ def canon_projection(res):
     def ent(e):
         d = dict(e)
         d.pop("endLine", None)
-        for k in ("comment", "text"):
+        # blanks at the ends of a text field are spelling, not content (an unterminated code or a description reaching
+        # the end of the line loses its trailing blanks when the line is trimmed)
+        for k in ("comment", "text", "code", "desc", "payee", "note", "name", "symbol", "format", "path"):
             if k in d and isinstance(d[k], str):
                 d[k] = d[k].strip()
         if "comments" in d:
